@@ -101,17 +101,40 @@ extern "C" void __wrap__sha1_ctx_mgr_init(void *mgr)
         (void) mgr;
 }
 
-static volatile uint32_t *status_ptr() { return fips::status_ptr(); }
+// ---- the second implementation of the protocol: fips/self_tests_generic.c (C11 atomics; used by the aarch64 and base-alias builds).  vcheck
+// compiles it from the tree with -DFIPS_MODE and renames its isal_self_tests / its function-local status word (objcopy), so both
+// implementations live in one binary and run under the same engines and the same oracle.  Weak: absent if the file could not be prepared.
+extern "C" int c17g_isal_self_tests(void) __attribute__((weak));
+extern "C" int c17g_status __attribute__((weak));
+static volatile int g_impl = 0; // 0 = x86 (asm_check/asm_set + self_tests.c), 1 = generic
+static bool generic_available() { return &c17g_isal_self_tests != nullptr && &c17g_status != nullptr; }
+extern "C" int __wrap_usleep(unsigned) // the generic waiting loop sleeps: a voluntary yield point for the scheduler
+{
+        __asm__ volatile("pause");
+        return 0;
+}
+static volatile uint32_t *status_ptr() { return g_impl ? (volatile uint32_t *) &c17g_status : fips::status_ptr(); }
+static void set_state(uint32_t v)
+{
+        if (g_impl) { *(volatile uint32_t *) &c17g_status = v; __sync_synchronize(); }
+        else fips::set_state(v);
+}
+static int first_call(int kind, void *mgr)
+{
+        if (g_impl) return c17g_isal_self_tests();
+        return kind == 0 ? isal_self_tests() : isal_sha1_ctx_mgr_init((ISAL_SHA1_HASH_CTX_MGR *) mgr);
+}
+static int later_call() { return g_impl ? c17g_isal_self_tests() : isal_self_tests(); }
 
 static uint8_t g_mgr[MAXT][1 << 12] __attribute__((aligned(64)));
 extern "C" __attribute__((noinline, used)) void c17_thread_entry(long i)
 {
-        int r = T[i].kind == 0 ? isal_self_tests() : isal_sha1_ctx_mgr_init((ISAL_SHA1_HASH_CTX_MGR *) g_mgr[i]);
+        int r = first_call(T[i].kind, g_mgr[i]);
         T[i].ret1 = r;
         T[i].tests_done_at_ret1 = g_tests_done;
         T[i].published_at_ret1 = (*status_ptr() == 0 || *status_ptr() == 1) ? 1 : 0;
         T[i].step_at_ret1 = g_steps;
-        T[i].ret2 = isal_self_tests();
+        T[i].ret2 = later_call();
         T[i].done = 1;
         for (;;) __asm__ volatile("pause");
 }
@@ -124,13 +147,14 @@ struct Case {
         std::vector<int> kinds;
         std::vector<uint8_t> bytes;                 // mode 0: (thread choice, burst length) per decision
         std::vector<std::pair<uint32_t, int>> pre;  // mode 1: (global step index, thread to switch to)
+        int impl = 0;                               // 0 = x86 implementation of the protocol, 1 = fips/self_tests_generic.c
         int rounds = 0;                             // mode 3: number of simultaneous-first-call rounds
         std::vector<int> skew;                      // mode 3: per-thread release delay (pause iterations), rotated every round
 };
 static const Case *g_case = nullptr;
 static size_t g_sched_pos = 0;
 static int g_burst_left = 0;
-static uintptr_t g_chk_lo = 0, g_chk_hi = 0;
+static uintptr_t g_chk_lo = 0, g_chk_hi = 0; // code range of the check/claim step of the selected implementation
 static int g_max_in_check = 0;
 static bool g_spin_before_publish = false;
 
@@ -219,7 +243,7 @@ static void on_trap(int, siginfo_t *, void *uc_)
                 int cnt = 0;
                 for (int i = 0; i < g_n; i++) cnt += T[i].in_check && !T[i].finished;
                 if (cnt > g_max_in_check) g_max_in_check = cnt;
-                if (inside && yielded && !(*status_ptr() == 0 || *status_ptr() == 1)) g_spin_before_publish = true;
+                if ((inside || g_impl) && yielded && !(*status_ptr() == 0 || *status_ptr() == 1)) g_spin_before_publish = true;
         }
         int nxt = g_steps >= g_step_bound ? -1 : pick_next(yielded);
         if (g_steps >= g_step_bound) g_bound_hit = true;
@@ -241,6 +265,7 @@ static J to_json(const Case &c)
 {
         J j = J::obj();
         j.set("n", c.n).set("fail", c.fail).set("yield", c.yield).set("mode", c.mode);
+        if (c.impl) j.set("impl", c.impl);
         J k = J::arr();
         for (int x : c.kinds) k.push(J(x));
         j.set("kinds", k);
@@ -261,7 +286,7 @@ static J to_json(const Case &c)
 static Case from_json(const J &j)
 {
         Case c;
-        c.n = j.num("n", 2); c.fail = j.num("fail", 0); c.yield = j.num("yield", 0); c.mode = j.num("mode", 0);
+        c.n = j.num("n", 2); c.fail = j.num("fail", 0); c.yield = j.num("yield", 0); c.mode = j.num("mode", 0); c.impl = j.num("impl", 0);
         for (auto &x : j.at("kinds").a) c.kinds.push_back((int) x.num());
         for (auto &x : j.at("bytes").a) c.bytes.push_back((uint8_t) x.num());
         for (auto &x : j.at("pre").a) c.pre.emplace_back((uint32_t) x.at((size_t) 0).unum(), (int) x.at((size_t) 1).num());
@@ -301,17 +326,31 @@ static void par_thread(int i)
                 for (int k = g_pt[i].skew; k > 0; k--) _mm_pause();
                 uint32_t st = *status_ptr();
                 g_pt[i].unpublished_before = (st == 2 || st == 3);
-                int r = g_pt[i].kind == 0 ? isal_self_tests() : isal_sha1_ctx_mgr_init((ISAL_SHA1_HASH_CTX_MGR *) g_mgr[i]);
+                int r = first_call(g_pt[i].kind, g_mgr[i]);
                 g_pt[i].ret1 = r;
                 g_pt[i].tests_done_at_ret1 = g_tests_done;
                 st = *status_ptr();
                 g_pt[i].published_at_ret1 = (st == 0 || st == 1) ? 1 : 0;
-                g_pt[i].ret2 = isal_self_tests();
+                g_pt[i].ret2 = later_call();
                 g_finished.fetch_add(1);
         }
 }
+static uintptr_t g_x86_lo = 0, g_x86_hi = 0;
+static bool select_impl(const Case &c, pbt::Ctx &ctx)
+{
+        if (c.impl && !generic_available()) { ctx.label("generic implementation not available"); return false; }
+        g_impl = c.impl;
+        if (g_impl) { g_chk_lo = (uintptr_t) &c17g_isal_self_tests; g_chk_hi = g_chk_lo + 0x180; }
+        else { g_chk_lo = g_x86_lo; g_chk_hi = g_x86_hi; }
+        ctx.label(g_impl ? "impl=generic (self_tests_generic.c)" : "impl=x86");
+        return true;
+}
+// exactly once: the AES group is entered once; the SHA group once as well, except that an implementation may skip it after a failed
+// AES group (the generic one does: the verdict is already "failed") - never more than once
+static bool once_ok(const Case &c) { return g_aes_entries == 1 && g_sha_entries <= 1 && (g_sha_entries == 1 || (c.fail & 1)); }
 static bool run_parallel(const Case &c, pbt::Ctx &ctx)
 {
+        if (!select_impl(c, ctx)) return true;
         int n = c.n < 2 ? 2 : c.n > MAXT ? MAXT : c.n;
         g_quit.store(false);
         g_ready.store(0);
@@ -337,7 +376,7 @@ static bool run_parallel(const Case &c, pbt::Ctx &ctx)
                         g_pt[i].skew = c.skew.empty() ? 0 : c.skew[(i + r) % c.skew.size()];
                         g_pt[i].ret1 = g_pt[i].ret2 = -99;
                 }
-                fips::set_state(2);
+                set_state(2);
                 g_go.fetch_add(1, std::memory_order_release);
                 auto t0 = std::chrono::steady_clock::now();
                 bool timeout = false;
@@ -348,7 +387,7 @@ static bool run_parallel(const Case &c, pbt::Ctx &ctx)
                 }
                 if (timeout) {
                         // a wall-clock bound is not an oracle: release possible spinners and call this round inconclusive
-                        fips::set_state(0);
+                        set_state(0);
                         while (g_finished.load() < n) relax(sp);
                         ctx.label("parallel-round-timeout(inconclusive)");
                         continue;
@@ -356,7 +395,7 @@ static bool run_parallel(const Case &c, pbt::Ctx &ctx)
                 int unp = 0;
                 for (int i = 0; i < n; i++) unp += g_pt[i].unpublished_before;
                 if (unp >= 2) contended++;
-                if (g_aes_entries != 1 || g_sha_entries != 1)
+                if (!once_ok(c))
                         if (ctx.fail("not-exactly-once", "self tests executed " + std::to_string(g_aes_entries) + " (aes) / " + std::to_string(g_sha_entries) + " (sha) times with " +
                                                                  std::to_string(n) + " threads making their first call at the same time on different cores (round " + std::to_string(r) + ")"))
                                 ok = false;
@@ -378,7 +417,7 @@ static bool run_parallel(const Case &c, pbt::Ctx &ctx)
                 g_go.fetch_add(1, std::memory_order_release);
                 for (int i = 0; i < n; i++) g_pt[i].th.join();
         }
-        fips::set_state(0);
+        set_state(0);
         ctx.label("parallel rounds", (uint64_t) rounds);
         ctx.label("parallel rounds with >=2 threads arriving before the verdict", contended);
         ctx.nontrivial = contended > 0;
@@ -388,6 +427,7 @@ static bool run_parallel(const Case &c, pbt::Ctx &ctx)
 static bool run(const Case &c, pbt::Ctx &ctx)
 {
         if (c.mode == 3) return run_parallel(c, ctx);
+        if (!select_impl(c, ctx)) return true;
         auto failx = [&](const std::string &k, const std::string &m) { return ctx.fail(k, m); };
         g_case = &c;
         g_n = c.n;
@@ -411,12 +451,12 @@ static bool run(const Case &c, pbt::Ctx &ctx)
                 T[i].ret1 = T[i].ret2 = -99;
                 T[i].tests_done_at_ret1 = T[i].published_at_ret1 = -1;
         }
-        fips::set_state(2); // SELF_TEST_NOT_DONE
+        set_state(2); // SELF_TEST_NOT_DONE
         g_cur = -1;
         g_single_step = 1;
         raise(SIGTRAP); // enters the scheduler; returns here when every logical thread finished
         g_single_step = 0;
-        fips::set_state(0);
+        set_state(0);
         g_case = nullptr;
 
         ctx.label("threads=" + std::to_string(c.n));
@@ -433,7 +473,7 @@ static bool run(const Case &c, pbt::Ctx &ctx)
                         if (!T[i].finished) who += std::to_string(i) + " ";
                 return !failx("no-termination", "thread(s) " + who + "still waiting after " + std::to_string(g_steps) + " steps although the schedule tail is fair");
         }
-        if (g_aes_entries != 1 || g_sha_entries != 1)
+        if (!once_ok(c))
                 if (failx("not-exactly-once", "self tests executed " + std::to_string(g_aes_entries) + " (aes) / " + std::to_string(g_sha_entries) + " (sha) times with " +
                                                       std::to_string(c.n) + " threads"))
                         return false;
@@ -499,9 +539,12 @@ int main(int argc, char **argv)
                 if (!status_ptr()) { fprintf(stderr, "HARNESS-ERROR: cannot locate the self-test status word\n"); exit(3); }
                 fips::set_state(0);
                 if (isal_self_tests() == ISAL_CRYPTO_ERR_FIPS_DISABLED) { fprintf(stderr, "HARNESS-ERROR: C17 needs the FIPS_MODE variant of the library\n"); exit(3); }
-                g_chk_lo = (uintptr_t) &asm_check_self_tests_status;
+                g_x86_lo = g_chk_lo = (uintptr_t) &asm_check_self_tests_status;
                 g_chk_hi = (uintptr_t) &asm_set_self_tests_status;
                 if (g_chk_hi <= g_chk_lo || g_chk_hi - g_chk_lo > 4096) g_chk_hi = g_chk_lo + 128;
+                g_x86_hi = g_chk_hi;
+                ctx.notes.push_back(generic_available() ? "fips/self_tests_generic.c compiled in as second implementation of the protocol"
+                                                        : "fips/self_tests_generic.c could not be prepared: only the x86 implementation is exercised");
                 static uint8_t *alt = (uint8_t *) mmap(nullptr, 1 << 18, PROT_READ | PROT_WRITE, MAP_PRIVATE | MAP_ANONYMOUS, -1, 0);
                 stack_t ss;
                 ss.ss_sp = alt;
@@ -559,11 +602,15 @@ int main(int argc, char **argv)
                 c.fail = coin(1, 3) ? rng<int>(1, 3) : 0; // which group reports the failure: 1 aes, 2 sha, 3 both
                 c.yield = weighted({ 2, 3, 1 }) == 0 ? 0 : rng<int>(1, 40);
                 for (int i = 0; i < c.n; i++) c.kinds.push_back(coin(1, 3));
+                if (generic_available() && coin(1, 4)) {
+                        c.impl = 1;
+                        for (auto &k : c.kinds) k = 0; // (the approved-entry wrappers of the library call the x86 implementation)
+                }
                 if (coin(1, (int) ctx.optnum("par_every", 12))) {
                         c.mode = 3;
                         c.n = rng<int>(2, MAXT);
                         c.kinds.clear();
-                        for (int i = 0; i < c.n; i++) c.kinds.push_back(coin(1, 3));
+                        for (int i = 0; i < c.n; i++) c.kinds.push_back(c.impl ? 0 : coin(1, 3));
                         c.rounds = rng<int>(20, 400);
                         int k = rng<int>(1, c.n + 1);
                         for (int i = 0; i < k; i++) c.skew.push_back(coin(1, 2) ? 0 : rng<int>(0, 40));
